@@ -216,7 +216,9 @@ pub fn run<S: Scheme>(scn: &Scenario, log: &EventLog) -> RunResult {
                     }
                 }
                 ("unbounded-gets-label", None) => {
-                    if all_bounds.is_empty() { None } else { Some(relabel::<S>(&mine, mine.commitment().clone(), Some(all_bounds[f.aux % all_bounds.len()]))) }
+                    // enforced bounds, and every other time any bound up to max_degree (enforced or not)
+                    let pool: Vec<usize> = if f.param % 2 == 0 { all_bounds.clone() } else { (1..=cfg.max_degree).collect() };
+                    if pool.is_empty() { None } else { Some(relabel::<S>(&mine, mine.commitment().clone(), Some(pool[(f.param as usize / 2) % pool.len()]))) }
                 }
                 _ => None,
             };
